@@ -12,7 +12,7 @@ import (
 var secretSanitisers = map[string]bool{
 	fnSum512: true, "crypto/sha256.Sum256": true, fnHashGenerate: true, fnBcryptGen: true,
 	"ab/otp/twofactor.BCryptRecoveryCodes": true, fnHashCompare: true, fnBcryptCmp: true, fnCTC: true, fnCTEq: true,
-	fnTOTPValidate: true, fnUseRecoveryCode: true, "builtin:len": true, "builtin:cap": true,
+	fnTOTPValidate: true, fnTOTPValidateCustom: true, fnUseRecoveryCode: true, "builtin:len": true, "builtin:cap": true,
 }
 
 // generated secrets: callee -> result index holding the plaintext
